@@ -164,3 +164,62 @@ class LoopSpec:
         st.check(self.name + '.inv-preserve', 'inv-preserve', self.inv(it, fr, nxt))
         st.effect('LOOP_CUT', line=s.lineno)
         raise PathEnd()
+
+
+def stream_content(it, iterable):
+    """(content term, ty) of a chunk source: BytesIO / StringIO / iter(partial(stream.read, n), b'')."""
+    if iterable.cls in ('BytesIO', 'StringIO'):
+        c = iterable.fields['content']
+        from .values import term_of
+        return term_of(c), ('bytes' if iterable.cls == 'BytesIO' else 'str')
+    if iterable.cls == 'calliter':
+        src = iterable.fields.get('stream')
+        if src is None:
+            raise Unsupported('iter(callable, sentinel) over an unknown callable')
+        return src.fields['content'].t, 'bytes'
+    raise Unsupported('chunk stream %r' % (iterable,))
+
+
+class StreamLoopSpec(LoopSpec):
+    """`for chunk in <stream>`: chunks are consecutive non-empty pieces of the content.
+
+    inv(it, fr, consumed) where consumed is the concatenation of the chunks
+    handed out so far.  Environment contract (trusted): iterating BytesIO /
+    StringIO / iter(partial(read, n), b'') yields pieces whose concatenation is
+    the content, ending at the first empty read.
+    """
+
+    def run(self, it, s, fr, iterable):
+        st = it.st
+        if not (isinstance(iterable, Obj) and iterable.cls in ('BytesIO', 'StringIO', 'calliter')):
+            raise Unsupported('loop contract %s expects a chunk stream, got %r' % (self.name, iterable))
+        content, ty = stream_content(it, iterable)
+        it.env.use('chunk iteration: concatenation of the yielded chunks equals the stream content')
+        sort = content.sort()
+        st.check(self.name + '.inv-entry', 'inv-entry', self.inv(it, fr, z3.Empty(sort)))
+        may_raise = iterable.cls == 'calliter'
+        opts = 3 if may_raise else 2
+        d = st.decide(opts)
+        if d == 0:
+            # arbitrary iteration
+            consumed = st.fresh('consumed', sort)
+            chunk = st.fresh('chunk', sort)
+            rest = st.fresh('rest', sort)
+            self.havoc(it, s, fr)
+            st.assume(content == z3.Concat(consumed, chunk, rest))
+            st.assume(z3.Length(chunk) > 0)
+            st.assume(self.inv(it, fr, consumed))
+            it.assign(s.target, SV(ty, chunk), fr)
+            self._body(it, s, fr, z3.Concat(consumed, chunk))
+            return
+        if d == 2:
+            self.havoc(it, s, fr)
+            consumed = st.fresh('consumed', sort)
+            st.assume(z3.PrefixOf(consumed, content))
+            st.assume(self.inv(it, fr, consumed))
+            st.effect('FAULT', op='stream.read')
+            from .engine import raise_py
+            raise_py('OSError', 'stream read failed')
+        self.havoc(it, s, fr)
+        st.assume(self.inv(it, fr, content))
+        it.exec_block(s.orelse, fr)
